@@ -119,9 +119,11 @@ def run(pid: str, tier: str, seed: int, known: Any) -> Dict[str, Any]:
     t0 = time.time()
     known_ids = set(known or [])
     fams = FAMILIES.get(pid)
-    limit, cap = (4000, 40) if tier == "quick" else (60000, 200)
+    # the limit grows with the number of control shapes, so that adding a shape does not thin out the others
+    nshapes = len(gen.SHAPES)
+    limit, cap = (140 * nshapes, 40) if tier == "quick" else (2000 * nshapes, 200)
     if fams is not None and tier == "quick":
-        limit = 2500
+        limit = 85 * nshapes
     jobs = [(p["name"], p["src"], cap) for p in gen.programs(2, seed=seed, limit=limit, families=fams)]
     with mp.get_context("fork").Pool(16) as pool:
         results = pool.map(_work, jobs, chunksize=16)
